@@ -223,18 +223,20 @@ class Families(object):
             els = [self.plain() for _ in range(k)]
             op = rng.choice([222, 223, 224, 225, 232])
             v = rng.choice(['indicator', 'counting-fixed', 'counting-delayed', 'waiting'])
+            # 031031 as ordinary leading elements: a definition state carried over would start counting them
+            lead = [31031] * rng.choice([0, 1, 2, 2])
             if v == 'indicator':
-                ids = els + [op * 1000]
+                ids = lead + els + [op * 1000]
             elif v == 'waiting':
-                ids = els + [op * 1000, 236000]
+                ids = lead + els + [op * 1000, 236000]
             elif v == 'counting-fixed':
-                ids = els + [op * 1000, 101000 + rng.randint(1, k), 31031]
+                ids = lead + els + [op * 1000, 101000 + rng.randint(1, k), 31031]
             else:
-                ids = els + [op * 1000, 101000, 31002, 31031]
+                ids = lead + els + [op * 1000, 101000, 31002, 31031]
                 for f in fps:
                     nb, bits, z = self.bitmap(rng, k)
                     f[31002] = [nb]
-                    f[31031] = bits
+                    f[31031] = [rng.randint(0, 1) for _ in lead] + bits
         elif fam == 'meaning-one-subset':
             ids = [204000 + rng.randint(1, 8), 101000, 31001, 31021, self.num(), self.plain(), 204000]
             for f in fps:
@@ -459,6 +461,8 @@ def evaluate(drv, treq, cases, rng, quick=True):
         if rev[0] != 'ok' or C.data_bits(rev[1])[:pos] != ''.join(cuts[::-1]):
             probs.append(('permutation', 'encoding the subsets in reverse order does not give the reversed bit strings (%s)' % rev[0],
                           {'message_hex': bT.hex()}))
+    for _, probs, _ in out:
+        probs.sort(key=lambda p: p[0].endswith('correspondence'))      # oracle failures first (stable)
     return out
 
 
@@ -469,7 +473,9 @@ def report(ctx, stage, why, c, extra=None):
     rep['family'] = c.note
     rep.update(extra or {})
     sig = {'stage': stage, 'features': sorted(P.classify(c.ids))}
-    ctx.violation('%s: %s (ids %s, %d subsets)' % (stage, why, c.ids[:30], c.n), rep, signature=sig)
+    # a model/implementation disagreement with the oracle passing is not by itself a failing input of the property
+    ctx.violation('%s: %s (ids %s, %d subsets)' % (stage, why, c.ids[:30], c.n), rep, signature=sig,
+                  no_failing_input=stage.endswith('correspondence'))
 
 
 def fails(drv, treq, c, stage, rng):
@@ -497,8 +503,28 @@ def shrink_subsets(c, still):
     return best
 
 
+def _eval_chunk(args):
+    cases, seed, k = args
+    drv = core.Driver()
+    return evaluate(drv, tables_io.group_request(), cases, core.rng_for(PROP, seed, 'chunk-%d' % k))
+
+
+def evaluate_all(ctx, drv, treq, cases, rng):
+    """quick: in-process; thorough: the oracle runs in worker processes (it is independent per case)"""
+    if ctx.tier == 'quick' or len(cases) < 40:
+        return evaluate(drv, treq, cases, rng, True)
+    import multiprocessing
+    size = 25
+    chunks = [(cases[i:i + size], ctx.seed, i) for i in range(0, len(cases), size)]
+    with multiprocessing.Pool(min(12, len(chunks))) as pool:
+        out = []
+        for part in pool.map(_eval_chunk, chunks):
+            out.extend(part)
+    return out
+
+
 def process(ctx, drv, treq, cases, rng, tag):
-    for c, probs, info in evaluate(drv, treq, cases, rng, ctx.tier == 'quick'):
+    for c, probs, info in evaluate_all(ctx, drv, treq, cases, rng):
         counts = sorted(set(len(vs) for vs in c.valss))
         ctx.case({'ids': c.ids, 'n': c.n, 'values': c.valss if len(json.dumps(c.valss)) < 1200 else core.chash(c.valss)},
                  nontrivial=(c.n >= 2 and info.get('dec') == 'ok'), sample=len(ctx.samples) < 4)
@@ -520,6 +546,10 @@ def process(ctx, drv, treq, cases, rng, tag):
             ctx.count(f)
         if probs:
             stage, why, extra = probs[0]
+            ctx.shrinks = getattr(ctx, 'shrinks', 0) + 1
+            if ctx.shrinks > 3:     # shrinking re-runs the oracle many times: only the first few failing cases are shrunk
+                report(ctx, stage, why, c, extra)
+                continue
             small = shrink_subsets(c, lambda c2: fails(drv, treq, c2, stage, ctx.rng('shrink')))
             if small is not c:
                 r = evaluate(drv, treq, [small], ctx.rng('shrink'))[0]
@@ -539,6 +569,22 @@ def witness_cases():
     return [(c, fps)]
 
 
+def preset_cases():
+    """hand-valued: a bitmap defined inside a delayed replication and re-used (237000) after it.  The subset with
+    zero repetitions has no bitmap to recall and is refused on its own; after the subset that defines one it must be
+    refused as well (bitmapped descriptors of the previous subset must not be recalled)."""
+    ids = [1001, 1002, 104000, 31001, 222000, 236000, 101002, 31031, 223000, 237000, 101001, 223255]
+    a = [11, 22, 1, 0, 0, 0, 1, 0, 0, 5]
+    b = [33, 44, 0, 0, 0, 6]
+    out = []
+    for k, valss in enumerate(([a, b], [a, b, a], [a, a, b])):
+        c = P.Case([ids], [], len(valss), False, 4, k)
+        c.valss = valss
+        c.note = 'preset-stale-bitmap'
+        out.append(c)
+    return out
+
+
 def run(ctx):
     drv = ctx.driver
     treq = tables_io.group_request()
@@ -551,7 +597,7 @@ def run(ctx):
     done = 0
     first = True
     while done < total:
-        m = min(200, total - done)
+        m = min(200 if quick else 1000, total - done)
         pairs = witness_cases() if first else []
         first = False
         tags = {}
@@ -573,6 +619,8 @@ def run(ctx):
         cases = gen_values(drv, treq, pairs, rng)
         ctx.count('values-not-generated', len(pairs) - len(cases))
         fcases = [c for c in cases if id(c) in tags or c.note.startswith('witness')]
+        if done == m:
+            fcases = preset_cases() + fcases
         gcases = [c for c in cases if not (id(c) in tags or c.note.startswith('witness'))]
         process(ctx, drv, treq, fcases, rng, 'family')
         process(ctx, drv, treq, gcases, rng, 'grammar')
